@@ -249,6 +249,9 @@ func TestCheck(t *testing.T) {
 	if tablesErr != "" {
 		t.Fatalf("HARNESS: %s", tablesErr)
 	}
+	if tableNote != "" {
+		rec.Note("v1-table-differs", tableNote)
+	}
 	if os.Getenv("VERIF_SHRINKTIME") == "" {
 		// every mis-converted loop costs a watchdog period while shrinking
 		os.Setenv("VERIF_SHRINKTIME", "10s")
